@@ -243,7 +243,7 @@ theorem C06_wf_methodOK (i : IfaceSpec) (calls : List Call) (h : region i calls 
   simp only [methodShapeOk, Bool.and_eq_true, distinct, decide_eq_true_eq, List.all_eq_true,
     Bool.not_eq_true', bne_iff_ne, ne_eq] at hmo
   obtain ⟨⟨⟨⟨⟨⟨⟨⟨⟨⟨hnames, hctx⟩, _⟩, _⟩, hak⟩, _⟩, hav⟩, hclean⟩, hph⟩, hfields⟩, hqb⟩ := hmo
-  refine ⟨hnames, hctx, hak, ?_, ?_, ?_, ?_, ?_, ?_, ?_, ?_⟩
+  refine ⟨hnames, hctx, hak, ?_, ?_, ?_, ?_, ?_, ?_, ?_, ?_, ?_⟩
   · intro kv hkv; simpa using hav kv hkv
   · -- pathClean gives token cleanliness
     simp only [pathClean, Bool.and_eq_true, List.all_eq_true] at hclean
@@ -256,6 +256,11 @@ theorem C06_wf_methodOK (i : IfaceSpec) (calls : List Call) (h : region i calls 
     have := hph n hn
     simp only [placeholderOk, Bool.and_eq_true] at this
     exact this.1
+  · intro n hn
+    have := hph n hn
+    simp only [placeholderOk, Bool.and_eq_true, List.any_eq_true, beq_iff_eq] at this
+    obtain ⟨q, hq, ⟨⟨hname, _⟩, _⟩⟩ := this.2
+    exact List.mem_map.2 ⟨q, hq, hname⟩
   · intro p hp; exact (hfields p hp).1
   · intro p hp f hf; simpa using (hfields p hp).2 f hf
   · intro p hp hk
